@@ -387,7 +387,7 @@ def c12_jobs(tier):
     W = ['normal return', 'length_error exit']
     for op in grow:
         for (n, cap, m) in ([(2, 2, 3), (2, 4, 5), (0, 2, 3)] if tier == 'quick' else [(2, 2, 3), (2, 4, 5), (0, 2, 3), (0, 0, 1), (3, 3, 4), (2, 3, 3), (1, 2, 2)]):
-            if op in ('push_back_c', 'push_back_m', 'emplace_back', 'insert_c', 'insert_m', 'emplace'): m = max(cap, 1)
+            if op in ('push_back_c', 'push_back_m', 'emplace_back', 'insert_c', 'insert_m', 'emplace'): m = cap   # full at max_size(): one more must throw (max_size() == 0 for the empty N == 0 cell)
             if op in ('assign_range', 'assign_il', 'assign_op_il'):
                 if cap > 2: continue
                 m = 2
